@@ -25,6 +25,16 @@ import (
 type input struct {
 	Res     int64                 `json:"res"`
 	Samples []downsampleutil.RawS `json:"samples"`
+	// Fault != nil: read ONE aggregate back after truncating the bytes of one sub-chunk
+	Fault *faultIn `json:"fault,omitempty"`
+}
+
+// faultIn: aggregate Func (index into readFuncs) of chunk Chunk (mod number of chunks) keeps
+// only 2 + Keep mod (len-2) of its bytes (2 = the XOR sample-count header).
+type faultIn struct {
+	Func  int `json:"func"`
+	Chunk int `json:"chunk"`
+	Keep  int `json:"keep"`
 }
 
 // the PromQL functions whose read-back the property is about, in the order count, sum, min, max
@@ -75,7 +85,7 @@ func xor(c chunkenc.Chunk) *storepb.Chunk {
 
 // readback reads one aggregate of the chunks through pkg/query's chunkSeries
 // (the translation AggrChunk -> storepb.AggrChunk is what the store gateway does).
-func readback(metas []chunks.Meta, aggrs []storepb.Aggr) ([]downsampleutil.S, error) {
+func aggrChunks(metas []chunks.Meta) []storepb.AggrChunk {
 	var cs []storepb.AggrChunk
 	for _, m := range metas {
 		ac := m.Chunk.(*downsample.AggrChunk)
@@ -91,24 +101,120 @@ func readback(metas []chunks.Meta, aggrs []storepb.Aggr) ([]downsampleutil.S, er
 			Min: xor(get(downsample.AggrMin)), Max: xor(get(downsample.AggrMax)),
 			Counter: xor(get(downsample.AggrCounter))})
 	}
+	return cs
+}
+
+func readback(metas []chunks.Meta, aggrs []storepb.Aggr) ([]downsampleutil.S, error) {
+	out, err, rerr := readSeries(aggrChunks(metas), aggrs)
+	if err == nil {
+		err = rerr
+	}
+	return out, err
+}
+
+// readSeries reads cs through pkg/query's chunkSeries. err: harness problem; rerr: the
+// iterator's Err() after it returned ValNone.
+func readSeries(cs []storepb.AggrChunk, aggrs []storepb.Aggr) (out []downsampleutil.S, err, rerr error) {
 	if len(cs) == 0 {
-		return nil, nil
+		return nil, nil, nil
 	}
 	set := query.NewPromSeriesSet(&oneSeries{chks: cs}, math.MinInt64, math.MaxInt64, aggrs, nil)
 	if !set.Next() {
-		return nil, fmt.Errorf("no series")
+		return nil, fmt.Errorf("no series"), nil
 	}
 	it := set.At().Iterator(nil)
-	var out []downsampleutil.S
 	for it.Next() != chunkenc.ValNone {
 		t, v := it.At()
 		z, err := downsampleutil.ToInt(v)
 		if err != nil {
-			return nil, err
+			return nil, err, nil
 		}
 		out = append(out, downsampleutil.S{T: t, V: z})
 	}
-	return out, it.Err()
+	return out, nil, it.Err()
+}
+
+func field(c *storepb.AggrChunk, a storepb.Aggr) *storepb.Chunk {
+	switch a {
+	case storepb.Aggr_COUNT:
+		return c.Count
+	case storepb.Aggr_SUM:
+		return c.Sum
+	case storepb.Aggr_MIN:
+		return c.Min
+	case storepb.Aggr_MAX:
+		return c.Max
+	}
+	return c.Counter
+}
+
+// runFault: truncate one sub-chunk of the selected aggregate, decode every sub-chunk on its
+// own (what its iterator yields, and whether it stops with an error), read the series back.
+func runFault(in input, metas []chunks.Meta) (common.Case, error) {
+	var c common.Case
+	f := readFuncs[((in.Fault.Func%len(readFuncs))+len(readFuncs))%len(readFuncs)]
+	aggrs := query.VerifC36AggrsFromFunc(f)
+	if len(aggrs) != 1 {
+		return c, fmt.Errorf("aggrsFromFunc(%s) = %v", f, aggrs)
+	}
+	cs := aggrChunks(metas)
+	if len(cs) == 0 {
+		return c, fmt.Errorf("no chunks")
+	}
+	orig, _, rerr := readSeries(cs, aggrs)
+	if rerr != nil {
+		return c, fmt.Errorf("intact series does not read back: %v", rerr)
+	}
+	k := ((in.Fault.Chunk % len(cs)) + len(cs)) % len(cs)
+	sub := field(&cs[k], aggrs[0])
+	if sub == nil || len(sub.Data) <= 2 {
+		return c, fmt.Errorf("sub-chunk too small to truncate")
+	}
+	keep := 2 + ((in.Fault.Keep%(len(sub.Data)-2))+(len(sub.Data)-2))%(len(sub.Data)-2)
+	sub.Data = append([]byte(nil), sub.Data[:keep]...)
+	// each sub-chunk on its own
+	var parts []string
+	anyErr := false
+	for i := range cs {
+		ch, err := chunkenc.FromData(chunkenc.EncXOR, field(&cs[i], aggrs[0]).Data)
+		if err != nil {
+			return c, err
+		}
+		it := ch.Iterator(nil)
+		var ss []downsampleutil.S
+		for it.Next() != chunkenc.ValNone {
+			t, v := it.At()
+			z, err := downsampleutil.ToInt(v)
+			if err != nil {
+				return c, err
+			}
+			ss = append(ss, downsampleutil.S{T: t, V: z})
+		}
+		if it.Err() != nil {
+			anyErr = true
+		}
+		parts = append(parts, common.Pair(downsampleutil.SamplesCoq(ss), common.Bool(it.Err() != nil)))
+	}
+	rb, err, rerr := readSeries(cs, aggrs)
+	if err != nil {
+		return c, err
+	}
+	c.Coq = common.App("CFault", common.List(parts), downsampleutil.SamplesCoq(orig), downsampleutil.SamplesCoq(rb), common.Bool(rerr != nil))
+	pos := "middle"
+	if k == len(cs)-1 {
+		pos = "last"
+	}
+	if len(cs) == 1 {
+		pos = "only"
+	}
+	c.Class = fmt.Sprintf("fault:%s chunk, decode-error=%v", pos, anyErr)
+	c.Nontrivial = anyErr && len(cs) >= 2
+	c.Obs = map[string]any{"func": f, "chunks": len(cs), "faulty_chunk": k, "kept_bytes": keep, "aggregate_samples": len(orig), "read": len(rb), "err": rerr != nil}
+	if anyErr && rerr == nil {
+		c.GoPred = fmt.Sprintf("%s read back through the querier: the iterator of sub-chunk %d of %d (truncated to %d bytes) stopped with an error, but the series iterator returned %d of %d samples with Err() == nil", f, k, len(cs), keep, len(rb), len(orig))
+		c.Sig = "readback-hole-without-error"
+	}
+	return c, nil
 }
 
 type fsample struct {
@@ -150,6 +256,9 @@ func run(raw json.RawMessage) (common.Case, error) {
 	mint, maxt := in.Samples[0].T, in.Samples[len(in.Samples)-1].T
 	nc := downsample.VerifC36TargetChunkCount(mint, maxt, 60000, in.Res, len(in.Samples))
 	metas := downsample.DownsampleRaw(data, in.Res)
+	if in.Fault != nil {
+		return runFault(in, metas)
+	}
 	out, err := downsampleutil.DecodeMetas(metas)
 	if err != nil {
 		return c, err
@@ -221,6 +330,14 @@ func gen(r *rand.Rand, tier string, n int) []any {
 		out = append(out, input{Res: downsampleutil.GenRes(r), Samples: nil})
 		in := out[len(out)-1].(input)
 		in.Samples = downsampleutil.GenRaw(r, tier, in.Res, false)
+		if r.Intn(4) == 0 {
+			// fault on the read path; mostly series with several chunks
+			if r.Intn(4) != 0 {
+				in.Res = common.Pick(r, int64(1000), 10, 7, 60000)
+				in.Samples = downsampleutil.GenDense(r, in.Res, 150+r.Intn(400))
+			}
+			in.Fault = &faultIn{Func: r.Intn(4), Chunk: r.Intn(8), Keep: r.Intn(1 << 20)}
+		}
 		out[len(out)-1] = in
 	}
 	return out
